@@ -13,10 +13,15 @@ import (
 
 func emit(id string, c rtgen.CaseT, st *hx.Stats) string {
 	ask := rtgen.AskNames(c.Script)
+	return emitObs(id, c, ask, rtgen.Observe(c, ask), st)
+}
+
+// emitObs writes the case line for an observation already made (sessions serve several requests on
+// one router and emit one line per request).
+func emitObs(id string, c rtgen.CaseT, ask []string, o rtgen.ObsT, st *hx.Stats) string {
 	l := hx.NewLine(id)
 	rtgen.InputTokens(l, c, ask)
 	in := l.String()
-	o := rtgen.Observe(c, ask)
 	l.Sep()
 	rtgen.ObsTokens(l, o, ask)
 	if !o.Panic {
@@ -45,6 +50,15 @@ func emit(id string, c rtgen.CaseT, st *hx.Stats) string {
 		}
 		if len(o.Params) > 0 {
 			st.Count("params_some")
+		}
+		if c.Warm {
+			st.Count("script_warmup_before_registrations")
+		}
+		if len(c.Prev) > 0 {
+			st.Count("request_not_first_on_router")
+		}
+		if len(c.Req.Path) >= 64 {
+			st.Count("path_ge_64_bytes")
 		}
 		for _, g := range c.Script {
 			if len(g.Groups) > 0 {
@@ -82,6 +96,10 @@ func fixed() []rtgen.CaseT {
 	multi := []rtgen.RegT{reg(G, "/r/:id"), reg("POST", "/r/:id"), reg("DELETE", "/r/:id", rtgen.ConsT{Name: "id", Kind: "int"}), reg("PUT", "/r/list")}
 	grp := []rtgen.RegT{{Method: G, Groups: []string{"/api", "/v1"}, Path: "/users/:id"}, {Method: G, Groups: []string{"/api"}, Path: ""}}
 	k01e := []rtgen.RegT{reg(G, "/f/:id/*", rtgen.ConsT{Name: "id", Kind: "int"}), reg("POST", "/g/*", rtgen.ConsT{Name: "filepath", Kind: "where", Arg: `[a-z/]+`})}
+	long64 := "/documentation-and-reference-material/administration/zzzzzzzzzzzz"
+	longs := []rtgen.RegT{reg(G, long64), reg(G, "/documentation-and-reference-material/administration/:x")}
+	items := []rtgen.RegT{reg(G, "/items/:id"), reg("DELETE", "/items/:id", rtgen.ConsT{Name: "id", Kind: "int"}), reg("POST", "/items/new")}
+	warm := []rtgen.RegT{reg(G, "/posts/:year/:slug", rtgen.ConsT{Name: "year", Kind: "int"}, rtgen.ConsT{Name: "slug", Kind: "regex", Arg: "[a-z-]+"})}
 	mk := func(s []rtgen.RegT, m, p string, nr bool) rtgen.CaseT {
 		return rtgen.CaseT{Script: s, Req: rtgen.ReqT{Method: m, Path: p}, NoRoute: nr}
 	}
@@ -96,6 +114,11 @@ func fixed() []rtgen.CaseT {
 		mk(multi, "PATCH", "/nothing", true), mk(multi, "PATCH", "/nothing", false), mk(multi, "TRACE", "/r/7", false),
 		mk(grp, G, "/api/v1/users/9", false), mk(grp, G, "/api", false), mk(grp, G, "/api/", false),
 		mk([]rtgen.RegT{reg(G, "/"), reg(G, "/*")}, G, "/", false), mk([]rtgen.RegT{reg(G, "/*")}, G, "/x/y/", false),
+		mk(longs, G, long64, false), mk(longs, "PUT", long64, false),
+		{Script: items, Req: rtgen.ReqT{Method: "PUT", Path: "/items/abc"}, Prev: []rtgen.ReqT{{Method: "PUT", Path: "/items/42"}}},
+		{Script: items, Req: rtgen.ReqT{Method: "POST", Path: "/items/7"}, Prev: []rtgen.ReqT{{Method: "PATCH", Path: "/items/new"}}},
+		{Script: warm, Req: rtgen.ReqT{Method: G, Path: "/posts/2024/Hello_World"}, Warm: true, WarmupAt: 0},
+		{Script: warm, Req: rtgen.ReqT{Method: G, Path: "/posts/2024/hello-world"}, Warm: true, WarmupAt: 0},
 		mk(k01e, G, "/f/abc/x", false), mk(k01e, G, "/f/12/x/y", false), mk(k01e, "POST", "/g/a/b", false), mk(k01e, "POST", "/g/a/7", false), mk(k01e, "PUT", "/g/a/7", false),
 		mk([]rtgen.RegT{reg(G, "/s/*"), reg(G, "/s/:x")}, G, "/s/1", false), mk([]rtgen.RegT{reg(G, "/s/*")}, G, "/s", false),
 	}
@@ -119,10 +142,33 @@ func main() {
 		for i := 0; i < a.N; {
 			script := rtgen.GenScript(r, maxRoutes)
 			nr := r.Chance(1, 4)
-			for j := 0; j < perScript && i < a.N; j++ {
-				c := rtgen.CaseT{NoRoute: nr, Script: script, Req: rtgen.GenReq(r, script)}
-				fmt.Fprintln(w, emit(fmt.Sprintf("c01-%d-%d", a.Seed, i), c, st))
-				i++
+			base := rtgen.CaseT{NoRoute: nr, Script: script}
+			if r.Chance(1, 4) { // warm-up in the middle of (or before) the registrations
+				base.Warm = true
+				base.WarmupAt = r.Intn(len(script) + 1)
+				if r.Chance(1, 3) {
+					base.WarmupAt = 0
+				}
+			}
+			ask := rtgen.AskNames(script)
+			for j := 0; j < perScript && i < a.N; {
+				// a session: several requests on one router instance, each judged on its own
+				reqs := rtgen.GenSession(r, script)
+				if r.Chance(1, 5) {
+					reqs = []rtgen.ReqT{rtgen.GenReq(r, script)}
+				}
+				sess := rtgen.NewSession(base, ask)
+				for k, q := range reqs {
+					if j >= perScript || i >= a.N {
+						break
+					}
+					c := base
+					c.Req = q
+					c.Prev = reqs[:k:k]
+					fmt.Fprintln(w, emitObs(fmt.Sprintf("c01-%d-%d", a.Seed, i), c, ask, sess.Serve(q), st))
+					i++
+					j++
+				}
 			}
 		}
 		st.Emit(w)
